@@ -60,6 +60,29 @@ func c07(c *hc.Ctx) {
 			p.ArcTo(rx, rx*c.Range(0.85, 1.15), float64(c.Intn(24))*15, c.Bool(), c.Bool(), c.GenCoord(), c.GenCoord())
 			c.Count("large-radius-arc")
 		}
+		if c.Chance(0.25) {
+			// runs of arcs that share some but not all parameters (petals: identical radii, different
+			// rotation; same rotation, different radii; identical arcs repeated): any per-command state
+			// carried from one arc to the next inside Transform shows here and nowhere else
+			rx, ry := math.Abs(c.GenCoord())+0.5, math.Abs(c.GenCoord())+0.5
+			rot := float64(c.Intn(24)) * 15
+			mode := c.Intn(3)
+			x, y := c.GenCoord(), c.GenCoord()
+			p.MoveTo(x, y)
+			for k, n := 0, 2+c.Intn(3); k < n; k++ {
+				switch mode {
+				case 0:
+					rot = float64(c.Intn(24)) * 15
+				case 1:
+					ry = math.Abs(c.GenCoord()) + 0.5
+				}
+				// chord shorter than the minor axis: ArcTo keeps the radii as given (bit-identical)
+				r := 0.9 * math.Min(rx, ry)
+				x, y = x+c.Range(-r, r), y+c.Range(-r, r)
+				p.ArcTo(rx, ry, rot, c.Bool(), c.Bool(), x, y)
+			}
+			c.Count("arc-run:" + []string{"same-radii", "same-rotation", "repeated"}[mode])
+		}
 		m := GenMatrix(c)
 		det := m.Det()
 		if math.Abs(det) < 1e-3 {
